@@ -17,10 +17,11 @@ from .methods import trunc_div
 
 
 class Reject(Exception):
-    def __init__(self, why, where=None):
+    def __init__(self, why, where=None, roles=()):
         Exception.__init__(self, why)
         self.why = why
         self.where = where
+        self.roles = tuple(roles)
 
 
 class Entry:
@@ -43,8 +44,10 @@ class RefChecker:
         self.R = Refs(ex, concretize)
         self.R.follow_holes = True
         self.R.holes_neutral = True
+        self.R.work_left = fuel * 4
         self.fuel = fuel
         self.it = it
+        self.roles = []     # which part of the program is being judged (for attributing findings)
 
     # ------------------------------------------------------------------------------------
     def tick(self):
@@ -207,12 +210,12 @@ class RefChecker:
     def is_type(self, t, ctx, what):
         ty = self.infer(t, ctx)
         if not self.conv(ty, TYPE, ctx):
-            raise Reject("%s is not a type" % what, t)
+            raise Reject("%s is not a type" % what, t, self.roles)
 
     def expect(self, t, ctx, want, what):
         ty = self.infer(t, ctx)
         if not self.conv(ty, want, ctx):
-            raise Reject("%s has the wrong type" % what, t)
+            raise Reject("%s has the wrong type" % what, t, self.roles)
 
     def infer(self, t, ctx):
         self.tick()
@@ -223,7 +226,7 @@ class RefChecker:
         if ct == "Variable":
             i = self.pin(f[1], len(ctx))
             if i is None:
-                raise Reject("unbound variable", t)
+                raise Reject("unbound variable", t, self.roles)
             e = ctx[len(ctx) - 1 - i]
             return self.up(e.type, len(ctx) - e.level)
         if ct == "Lambda":
@@ -238,7 +241,7 @@ class RefChecker:
             fty = self.whnf(self.infer(f[0], ctx), ctx)
             c2, a2 = self.view(fty)
             if c2 != "Pi":
-                raise Reject("applicand is not a function", f[0])
+                raise Reject("applicand is not a function", f[0], self.roles)
             self.expect(f[1], ctx, a2.fields[2], "the argument")
             return self.R.subst(a2.fields[3], 0, f[1], 0)
         if ct.startswith("Let"):
@@ -247,7 +250,11 @@ class RefChecker:
             level = len(ctx) + n
             ctx2 = ctx + [Entry(ann, d, level) for (_, ann, d) in defs]
             for (x, ann, d) in defs:
-                self.is_type(ann, ctx2, "the annotation of %s" % x)
+                self.roles.append("annotation")
+                try:
+                    self.is_type(ann, ctx2, "the annotation of %s" % x)
+                finally:
+                    self.roles.pop()
             for (x, ann, d) in defs:
                 self.expect(d, ctx2, ann, "the definition of %s" % x)
             body_ty = self.infer(f[1], ctx2)
@@ -272,7 +279,7 @@ class RefChecker:
             a = self.infer(f[1], ctx)
             b = self.infer(f[2], ctx)
             if not self.conv(a, b, ctx):
-                raise Reject("the branches have different types", t)
+                raise Reject("the branches have different types", t, self.roles)
             return a
         raise InternalError("infer: " + ct)
 
